@@ -142,11 +142,26 @@ def make_cfg(seed, i, typ):
     return cfg
 
 
+HSLACK = [0.0]   # extra allowance on the h part for the run in progress (set per run)
+
+
 def slack(v, has_h):
     a = 1e-12 * abs(v) + 1e-300
     if has_h:
-        a += 1e-9 * (1 + abs(v))
+        a += 1e-9 * (1 + abs(v)) + HSLACK[0]
     return a
+
+
+def h_slack_for(cfg):
+    """With projections the stored point is re-projected (moves by up to ~2 sqrt(p tol)) before dfols evaluates h at it, while the
+    harness evaluates h at the point that was passed to objfun: allow the Lipschitz constant of h times that distance."""
+    if not (cfg.get("reg") and cfg.get("proj")):
+        return 0.0
+    n = cfg["prob"]["n"]
+    lip = cfg["reg"]["lam"] * (np.sqrt(n) if cfg["reg"]["type"] == "l1" else 1.0)
+    p = len(cfg["proj"]) + 1
+    scale = 1 + float(np.max(np.abs(cfg["x0"])))
+    return float(lip * 2.0 * np.sqrt(p * 1e-10) * scale)
 
 
 def make_hook(state):
@@ -181,6 +196,7 @@ def one_run(cfg, res, tag):
     ctx = engine.Ctx()
     built = gen.build(cfg, ctx)
     h = built.h_raw if built.h is not None else None
+    HSLACK[0] = h_slack_for(cfg)
     state = dict(viol=[], st=st, ctx=ctx, h=h, best=np.inf, best_k=None, done=0)
     ctx.iter_hook = make_hook(state)
     run = engine.run_solve(built.objfun, built.x0.copy(), ctx=ctx, timeout=(150 if cfg.get("proj") else 60), faults=built.faults,
